@@ -1,3 +1,474 @@
 import NetVerif.Model.H3Body
+import NetVerif.Gen.C34
+import NetVerif.Proofs.C22
+/-!
+C34 — HTTP/3 request/response exchange is delivered faithfully end to end.
+
+Theorems over the model `NetVerif.Model.H3Body` (see that file for what is modelled):
+* T-tie: the integer kernels regenerated from body.go / server.go / roundtrip.go equal the model's;
+* writer side (`bodyWriter`, `writeBodyAndTrailer`): FIN iff supplied length = declared length;
+* reader side (`bodyReader.Read`) for EVERY frame chunking and EVERY sequence of read sizes:
+  bytes handed out are a prefix of the body; clean EOF iff the body has the declared length (and then
+  all of it was handed out); every mismatch ends in an error;
+* composition writer → stream → reader, QUIC delivery as an explicit hypothesis;
+* `http.NoBody` selection: the full "never a clean EOF on mismatch" statement is FALSE for a declared
+  length of 0 (known finding `declared-zero-body-ignored`), true outside that region;
+* byte-level framing: `decodeMsg (encodeMsg m chunking) = m` for every chunking.
+-/
 namespace NetVerif.Proofs.C34
+open NetVerif.Model.H3Body NetVerif.Model.VarintQuic
+
+/-! ## T-tie: regenerated kernels = model kernels -/
+
+theorem gen_constants_eq :
+    Gen.C34.defaultBodyBufferCap = (defaultBodyBufferCap : Int) ∧
+    Gen.C34.frameTypeData = (frameTypeData : Int) ∧ Gen.C34.frameTypeHeaders = (frameTypeHeaders : Int) := by
+  decide
+
+theorem gen_writer_eq (remain x : Int) :
+    Gen.C34.bwTooLong remain x = some (bwTooLong remain x) ∧
+    Gen.C34.bwAccount remain x = some (bwAccount remain x) ∧
+    Gen.C34.bwCloseShort remain = some (bwCloseShort remain) := by
+  refine ⟨rfl, ?_, rfl⟩
+  unfold Gen.C34.bwAccount bwAccount
+  split <;> rfl
+
+theorem gen_reader_eq (remain x : Int) :
+    Gen.C34.brShortEOF remain = some (brShort remain) ∧
+    Gen.C34.brShortTrailer remain = some (brShort remain) ∧
+    Gen.C34.brDataTooLong remain x = some (brDataTooLong remain x) ∧
+    Gen.C34.brAccount remain x = some (brAccount remain x) ∧
+    Gen.C34.brClamp remain x = some (brClamp remain x) := by
+  refine ⟨rfl, rfl, rfl, ?_, ?_⟩
+  · unfold Gen.C34.brAccount brAccount; split <;> rfl
+  · unfold Gen.C34.brClamp brClamp; split <;> rfl
+
+theorem gen_bodyKind_eq (cl ntr : Int) (isHead : Bool) :
+    Gen.C34.srvHasBody cl ntr = some (srvHasBody cl ntr) ∧
+    Gen.C34.cliHasBody cl isHead ntr = some (cliHasBody cl isHead ntr) ∧
+    Gen.C34.actualContentLength isHead cl = some (actualContentLength isHead cl) := by
+  refine ⟨rfl, ?_, ?_⟩
+  · unfold Gen.C34.cliHasBody cliHasBody
+    cases isHead <;> simp
+  · unfold Gen.C34.actualContentLength actualContentLength
+    cases isHead <;> simp
+    split <;> rfl
+
+theorem gen_responseWriter_eq (a b c : Int) (wrote : Bool) :
+    Gen.C34.responseCanHaveBody a = some (responseCanHaveBody a) ∧
+    Gen.C34.trimWrite a b = some (trimWrite a b) ∧
+    Gen.C34.bbTake a b c = some (bbTake a b c) ∧
+    Gen.C34.rwBuffers wrote a b c = some (rwBuffers wrote a b c) := by
+  refine ⟨?_, ?_, rfl, ?_⟩
+  · unfold Gen.C34.responseCanHaveBody responseCanHaveBody
+    repeat' split
+    all_goals rfl
+  · unfold Gen.C34.trimWrite trimWrite
+    split <;> rfl
+  · unfold Gen.C34.rwBuffers rwBuffers
+    cases wrote <;> simp
+
+/-! ## bodyWriter -/
+
+/-- `Write(p)` (one slice): the accounting subtracts exactly `len(p)`. -/
+theorem write_single (r : Int) (c : List Nat) (hc : c ≠ []) :
+    (BodyWriter.mk r).write [c] =
+      if r ≥ 0 ∧ (c.length : Int) > r then ⟨⟨r⟩, 0, some .tooLong, none⟩
+      else ⟨⟨if r ≥ 0 then r - c.length else r⟩, c.length, none, some c⟩ := by
+  have hl : c.length ≠ 0 := by
+    intro h; exact hc (List.length_eq_zero_iff.mp h)
+  simp [BodyWriter.write, sumLens, hl, bwTooLong, accountLoop, bwAccount]
+
+/-- The latent multi-slice defect of `bodyWriter.write` (running total subtracted once per slice):
+with 10 bytes declared, `write(a, b)` with 3 + 3 bytes leaves `remain = 1` instead of 4.  Not
+reachable at this commit: the only caller with a known length (`io.Copy` in `writeBodyAndTrailer`)
+passes one slice, and the server's two-slice call has `remain = -1`. -/
+theorem write_multislice_overcount :
+    ((BodyWriter.mk 10).write [[1, 2, 3], [4, 5, 6]]).w.remain = 1 := by decide
+
+private theorem copyChunks_spec (cs : List (List Nat)) : ∀ (r : Int),
+    let res := copyChunks ⟨r⟩ cs
+    (res.2.2 = true ↔ (r ≥ 0 ∧ (cs.flatten.length : Int) > r)) ∧
+    (res.2.2 = false → res.1.remain = (if r ≥ 0 then r - cs.flatten.length else r) ∧
+        res.2.1.flatten = cs.flatten) ∧
+    (∃ tl, cs.flatten = res.2.1.flatten ++ tl) ∧
+    (∀ p ∈ res.2.1, p ≠ []) := by
+  induction cs with
+  | nil => intro r; simp [copyChunks]
+  | cons c cs ih =>
+    intro r
+    by_cases hc : c = []
+    · subst hc
+      have := ih r
+      simpa [copyChunks] using this
+    · have hl : c.length ≠ 0 := fun h => hc (List.length_eq_zero_iff.mp h)
+      have hpos : 0 < c.length := Nat.pos_of_ne_zero hl
+      rw [copyChunks]
+      simp only [hl, if_false]
+      rw [write_single r c hc]
+      by_cases hlong : r ≥ 0 ∧ (c.length : Int) > r
+      · simp only [hlong, and_self, if_true]
+        simp only [List.flatten_cons, List.length_append]
+        refine ⟨?_, ?_, ?_, ?_⟩
+        · simp; omega
+        · simp
+        · exact ⟨c ++ cs.flatten, by simp⟩
+        · simp
+      · simp only [hlong, if_false]
+        have hval : ∃ r', (if r ≥ 0 then r - (c.length : Int) else r) = r' ∧
+            (r' ≥ 0 ↔ r ≥ 0) ∧ (r ≥ 0 → r' = r - c.length) ∧ (¬ r ≥ 0 → r' = r) := by
+          by_cases hr0 : r ≥ 0
+          · exact ⟨r - c.length, by simp [hr0], by omega, fun _ => rfl, fun h => absurd hr0 h⟩
+          · exact ⟨r, by simp [hr0], Iff.rfl, fun h => absurd h hr0, fun _ => rfl⟩
+        obtain ⟨r', hr', hge, hpos', hneg'⟩ := hval
+        rw [hr']
+        have := ih r'
+        generalize hres : copyChunks ⟨r'⟩ cs = res at this
+        obtain ⟨w', ps, e⟩ := res
+        simp only at this ⊢
+        obtain ⟨h1, h2, ⟨tl, h3⟩, h4⟩ := this
+        simp only [List.flatten_cons, List.length_append]
+        refine ⟨?_, ?_, ?_, ?_⟩
+        · rw [h1]
+          constructor
+          · intro ⟨ha, hb⟩
+            have hr0 := hge.mp ha
+            have := hpos' hr0
+            exact ⟨hr0, by push_cast; omega⟩
+          · intro ⟨ha, hb⟩
+            have := hpos' ha
+            exact ⟨hge.mpr ha, by push_cast at hb; omega⟩
+        · intro he
+          obtain ⟨hr, hf⟩ := h2 he
+          refine ⟨?_, by rw [hf]⟩
+          rw [hr]
+          by_cases hr0 : r ≥ 0
+          · have := hpos' hr0
+            have := hge.mpr hr0
+            simp only [hr0, this, if_true]
+            push_cast; omega
+          · have := hneg' hr0
+            have hn : ¬ r' ≥ 0 := fun h => hr0 (hge.mp h)
+            simp only [hr0, hn, if_false]
+            exact this
+        · exact ⟨tl, by rw [h3]; simp⟩
+        · intro p hp
+          simp at hp
+          rcases hp with rfl | hp
+          · exact hc
+          · exact h4 p hp
+
+private theorem bodyOf_map_data {α : Type} (ps : List (List Nat)) (tl : List (Frame α)) :
+    bodyOf (ps.map Frame.data ++ tl) = ps.flatten ++ bodyOf tl := by
+  induction ps with
+  | nil => simp
+  | cons p ps ih => simp [bodyOf, ih]
+
+private theorem trailerOf_map_data {α : Type} (ps : List (List Nat)) (tl : List (Frame α)) :
+    trailerOf (ps.map Frame.data ++ tl) = trailerOf tl := by
+  induction ps with
+  | nil => simp
+  | cons p ps ih => simp [trailerOf, ih]
+
+/-- Sending side, all chunkings: the request stream ends with FIN (rather than RESET) exactly when
+the length is unknown or the supplied bytes add up to the declared length. -/
+theorem sendBody_fin_iff {α : Type} (d : Int) (chunks : List (List Nat)) (tr : Option α) :
+    (sendBody d chunks tr).ending = .fin ↔ (d < 0 ∨ (chunks.flatten.length : Int) = d) := by
+  have h := copyChunks_spec chunks d
+  unfold sendBody
+  generalize copyChunks ⟨d⟩ chunks = res at h
+  obtain ⟨w, ps, failed⟩ := res
+  simp only at h ⊢
+  obtain ⟨h1, h2, -, -⟩ := h
+  cases failed with
+  | true =>
+    have := h1.mp rfl
+    simp [-List.length_flatten]; omega
+  | false =>
+    obtain ⟨hr, -⟩ := h2 rfl
+    have hn : ¬ (d ≥ 0 ∧ (chunks.flatten.length : Int) > d) := fun hc => by
+      have := h1.mpr hc; simp at this
+    simp only [Bool.false_eq_true, if_false, BodyWriter.close, bwCloseShort, hr]
+    by_cases hd : d ≥ 0
+    · simp only [hd, if_true]
+      by_cases hs : d - (chunks.flatten.length : Int) > 0
+      · simp [hs, -List.length_flatten]; omega
+      · simp only [hs, decide_false, Bool.false_eq_true, if_false]
+        cases tr <;> simp [-List.length_flatten] <;> omega
+    · simp only [hd, if_false]
+      have : ¬ d > 0 := by omega
+      simp only [this, decide_false, Bool.false_eq_true, if_false]
+      cases tr <;> simp [-List.length_flatten] <;> omega
+
+/-- What is on the wire: only DATA frames (none empty) and — on the FIN path — the trailers; the
+DATA payloads are the supplied bytes (all of them on the FIN path, a prefix after an abort). -/
+theorem sendBody_frames {α : Type} (d : Int) (chunks : List (List Nat)) (tr : Option α) :
+    let s := sendBody d chunks tr
+    (s.ending = .fin → bodyOf s.frames = chunks.flatten ∧ trailerOf s.frames = tr) ∧
+    (s.ending = .reset → trailerOf s.frames = none) ∧
+    (∃ tl, chunks.flatten = bodyOf s.frames ++ tl) := by
+  have h := copyChunks_spec chunks d
+  unfold sendBody
+  generalize copyChunks ⟨d⟩ chunks = res at h
+  obtain ⟨w, ps, failed⟩ := res
+  simp only at h ⊢
+  obtain ⟨-, h2, ⟨tl, h3⟩, -⟩ := h
+  have hb : bodyOf (ps.map (Frame.data (α := α))) = ps.flatten := by
+    simpa [bodyOf] using bodyOf_map_data (α := α) ps []
+  have ht : trailerOf (ps.map (Frame.data (α := α))) = none := by
+    simpa [trailerOf] using trailerOf_map_data (α := α) ps []
+  cases failed with
+  | true => simp [ht, hb]; exact ⟨tl, h3⟩
+  | false =>
+    obtain ⟨-, hf⟩ := h2 rfl
+    simp only [Bool.false_eq_true, if_false]
+    cases hcl : w.close with
+    | some e => simp [ht, hb]; exact ⟨tl, h3⟩
+    | none =>
+      cases tr with
+      | none => simp [ht, hb, hf]
+      | some t =>
+        simp [bodyOf_map_data, trailerOf_map_data, bodyOf, trailerOf, hf]
+
+/-! ## bodyReader -/
+
+/-- Unread body of a reader state: rest of the current DATA frame plus the frames not yet looked at. -/
+def pend {α : Type} (r : BodyReader α) : List Nat := r.cur.getD [] ++ bodyOf r.rest
+
+private theorem brAccount_fit (rem : Int) (n : Nat) (h : rem ≥ 0 → (n : Int) ≤ rem) :
+    brAccount rem n = if rem ≥ 0 then rem - n else rem := by
+  unfold brAccount
+  split <;> split <;> omega
+
+private theorem brClamp_min (k l : Nat) : (brClamp k l).toNat = min k l := by
+  unfold brClamp
+  split <;> omega
+
+/-- Specification of the frame-seeking loop. -/
+private theorem seek_spec {α : Type} (rem : Int) (e : StreamEnd) (fs : List (Frame α)) :
+    match seek rem e fs with
+    | .data p fs' => bodyOf fs = p ++ bodyOf fs' ∧ trailerOf fs = trailerOf fs' ∧
+        fs'.length < fs.length ∧ (rem ≥ 0 → (p.length : Int) ≤ rem)
+    | .eof t => bodyOf fs = [] ∧ rem ≤ 0 ∧ t = trailerOf fs ∧ (e = .fin ∨ t.isSome)
+    | .err .errShort => bodyOf fs = [] ∧ rem > 0
+    | .err .errLong => rem ≥ 0 ∧ ((bodyOf fs).length : Int) > rem
+    | .err .errReset => e = .reset ∧ trailerOf fs = none ∧ bodyOf fs = []
+    | .err _ => False := by
+  induction fs with
+  | nil =>
+    cases e <;> simp [seek, brShort, bodyOf, trailerOf]
+    split <;> simp_all <;> omega
+  | cons f fs ih =>
+    cases f with
+    | headers h =>
+      simp only [seek, brShort]
+      split <;> simp_all [bodyOf, trailerOf] <;> omega
+    | data p =>
+      simp only [seek, brDataTooLong]
+      split <;> simp_all [bodyOf, trailerOf] <;> omega
+    | unknown t p =>
+      simp only [seek, bodyOf, trailerOf]
+      generalize seek rem e fs = s at ih ⊢
+      cases s with
+      | data p fs' => simp only at ih ⊢; obtain ⟨a, b, c, d⟩ := ih; exact ⟨a, b, by simp; omega, d⟩
+      | eof t => exact ih
+      | err e' => cases e' <;> exact ih
+
+/-- Result of `run`, unpacked. -/
+private theorem run_cons_ok {α : Type} (r r' : BodyReader α) (k : Nat) (ks : List Nat) (bs : List Nat)
+    (h : r.read k = (r', bs, .ok)) :
+    r.run (k :: ks) = (bs ++ (r'.run ks).1, (r'.run ks).2.1, (r'.run ks).2.2) := by
+  simp [BodyReader.run, h]
+
+private theorem run_cons_end {α : Type} (r r' : BodyReader α) (k : Nat) (ks : List Nat) (bs : List Nat)
+    (e : RRes) (he : e ≠ .ok) (h : r.read k = (r', bs, e)) :
+    r.run (k :: ks) = ([], some e, r'.trailer) := by
+  cases e <;> simp_all [BodyReader.run]
+
+/-- One `deliver` step. -/
+private theorem deliver_eq {α : Type} (r : BodyReader α) (c : List Nat) (k : Nat)
+    (hfit : r.remain ≥ 0 → (c.length : Int) ≤ r.remain) :
+    deliver r c k =
+      ({ r with cur := some (c.drop (min k c.length)),
+                remain := if r.remain ≥ 0 then r.remain - (min k c.length : Nat) else r.remain },
+       c.take (min k c.length), .ok) := by
+  unfold deliver
+  simp only [brClamp_min]
+  rw [brAccount_fit]
+  intro h
+  have := hfit h
+  omega
+
+/-- The invariant-carrying specification of `run` from an arbitrary reader state. -/
+private theorem run_spec {α : Type} (ks : List Nat) : ∀ (r : BodyReader α), r.err = none →
+    (r.remain ≥ 0 → ((r.cur.getD []).length : Int) ≤ r.remain) →
+    (∃ tl, pend r = (r.run ks).1 ++ tl) ∧
+    ((r.run ks).2.1 = some .eof →
+        (r.run ks).1 = pend r ∧ (r.remain < 0 ∨ r.remain = (pend r).length) ∧
+        (r.run ks).2.2 = trailerOf r.rest ∧ (r.ending = .fin ∨ (trailerOf r.rest).isSome)) ∧
+    ((r.run ks).2.1 = some .errShort → (r.run ks).1 = pend r ∧ r.remain > (pend r).length) ∧
+    ((r.run ks).2.1 = some .errLong → r.remain ≥ 0 ∧ ((pend r).length : Int) > r.remain) ∧
+    ((r.run ks).2.1 = some .errReset →
+        (r.run ks).1 = pend r ∧ r.ending = .reset ∧ trailerOf r.rest = none) ∧
+    (r.run ks).2.1 ≠ some .ok := by
+  induction ks with
+  | nil => intro r _ _; simp [BodyReader.run]
+  | cons k ks ih =>
+    intro r herr hfit
+    -- common treatment of a `deliver` step
+    have step : ∀ (r0 : BodyReader α) (c : List Nat), r0.err = none → r0.remain = r.remain →
+        r0.ending = r.ending →
+        (r.remain ≥ 0 → (c.length : Int) ≤ r.remain) → pend r = c ++ bodyOf r0.rest →
+        trailerOf r.rest = trailerOf r0.rest → r.read k = deliver r0 c k →
+        (∃ tl, pend r = (r.run (k :: ks)).1 ++ tl) ∧
+        ((r.run (k :: ks)).2.1 = some .eof →
+            (r.run (k :: ks)).1 = pend r ∧ (r.remain < 0 ∨ r.remain = (pend r).length) ∧
+            (r.run (k :: ks)).2.2 = trailerOf r.rest ∧ (r.ending = .fin ∨ (trailerOf r.rest).isSome)) ∧
+        ((r.run (k :: ks)).2.1 = some .errShort →
+            (r.run (k :: ks)).1 = pend r ∧ r.remain > (pend r).length) ∧
+        ((r.run (k :: ks)).2.1 = some .errLong → r.remain ≥ 0 ∧ ((pend r).length : Int) > r.remain) ∧
+        ((r.run (k :: ks)).2.1 = some .errReset →
+            (r.run (k :: ks)).1 = pend r ∧ r.ending = .reset ∧ trailerOf r.rest = none) ∧
+        (r.run (k :: ks)).2.1 ≠ some .ok := by
+      intro r0 c h0 hrem hend hc hp htr hread
+      have hd := deliver_eq r0 c k (by rw [hrem]; exact hc)
+      rw [hd] at hread
+      rw [run_cons_ok r _ k ks _ hread]
+      obtain ⟨n, hn⟩ : ∃ n, n = min k c.length := ⟨_, rfl⟩
+      rw [← hn] at hread
+      obtain ⟨r', hr'⟩ : ∃ r' : BodyReader α, r' = { r0 with cur := some (c.drop n),
+        remain := if r0.remain ≥ 0 then r0.remain - (n : Nat) else r0.remain } := ⟨_, rfl⟩
+      rw [← hr'] at hread
+      have hnle : n ≤ c.length := hn ▸ Nat.min_le_right _ _
+      have hp' : pend r' = c.drop n ++ bodyOf r0.rest := by simp [pend, hr']
+      have hsplit : pend r = c.take n ++ pend r' := by
+        rw [hp, hp', ← List.append_assoc, List.take_append_drop]
+      have hlen : (pend r).length = n + (pend r').length := by
+        rw [hsplit]; simp [List.length_take, Nat.min_eq_left hnle]
+      have hrem' : r'.remain = if r.remain ≥ 0 then r.remain - (n : Nat) else r.remain := by
+        simp [hr', hrem]
+      have hfit' : r'.remain ≥ 0 → (((r'.cur.getD []).length : Nat) : Int) ≤ r'.remain := by
+        intro h
+        have : (r'.cur.getD []).length = c.length - n := by simp [hr']
+        rw [this, hrem'] at *
+        split at h
+        · have := hc (by assumption); split <;> omega
+        · split <;> omega
+      obtain ⟨⟨tl, i1⟩, i2, i3, i4, i5, i6⟩ := ih r' (by simp [hr', h0]) hfit'
+      have hrest : r'.rest = r0.rest := by simp [hr']
+      have hend' : r'.ending = r.ending := by simp [hr', hend]
+      refine ⟨⟨tl, by rw [hsplit, i1, List.append_assoc]⟩, ?_, ?_, ?_, ?_, i6⟩
+      · intro he
+        obtain ⟨a, b, c', d⟩ := i2 he
+        refine ⟨by rw [hsplit, a], ?_, by rw [c', hrest, htr], by rw [← hend', hrest.symm ▸ htr ▸ rfl]; rw [htr, ← hrest]; exact d⟩
+        rw [hrem'] at b
+        rw [hlen]
+        split at b <;> omega
+      · intro he
+        obtain ⟨a, b⟩ := i3 he
+        refine ⟨by rw [hsplit, a], ?_⟩
+        rw [hrem'] at b
+        rw [hlen]
+        split at b <;> omega
+      · intro he
+        obtain ⟨a, b⟩ := i4 he
+        rw [hrem'] at a b
+        rw [hlen]
+        split at a <;> omega
+      · intro he
+        obtain ⟨a, b, c'⟩ := i5 he
+        exact ⟨by rw [hsplit, a], by rw [← hend', b], by rw [htr, ← hrest, c']⟩
+    -- case analysis of `read`
+    cases hcur : r.cur with
+    | some cur =>
+      cases cur with
+      | cons c cs =>
+        apply step r (c :: cs) herr rfl rfl
+        · intro h; have := hfit h; simpa [hcur] using this
+        · simp [pend, hcur]
+        · rfl
+        · simp [BodyReader.read, herr, hcur]
+      | nil =>
+        have hp : pend r = bodyOf r.rest := by simp [pend, hcur]
+        have hs := seek_spec r.remain r.ending r.rest
+        cases hsk : seek r.remain r.ending r.rest with
+        | err e =>
+          rw [hsk] at hs
+          have hread : r.read k = ({ r with cur := none, err := some e }, [], e) := by
+            simp [BodyReader.read, herr, hcur, hsk]
+          cases e with
+          | ok => exact hs.elim
+          | eof => exact hs.elim
+          | errShort =>
+            rw [run_cons_end r _ k ks _ _ (by decide) hread]
+            simp only at hs
+            simp [hp, hs.1]; exact hs.2
+          | errLong =>
+            rw [run_cons_end r _ k ks _ _ (by decide) hread]
+            simp only at hs
+            simp [hp]; exact hs
+          | errReset =>
+            rw [run_cons_end r _ k ks _ _ (by decide) hread]
+            simp only at hs
+            simp [hp, hs.1, hs.2.1, hs.2.2]
+        | eof t =>
+          rw [hsk] at hs
+          simp only at hs
+          have hread : r.read k = ({ r with cur := none, err := some .eof, trailer := t, rest := [] }, [], .eof) := by
+            simp [BodyReader.read, herr, hcur, hsk]
+          rw [run_cons_end r _ k ks _ _ (by decide) hread]
+          obtain ⟨a, b, c, d⟩ := hs
+          simp [hp, a, c]
+          refine ⟨by omega, ?_⟩
+          rw [← c]; exact d
+        | data p fs =>
+          rw [hsk] at hs
+          simp only at hs
+          obtain ⟨a, b, c, d⟩ := hs
+          apply step { r with rest := fs } p herr rfl rfl d
+          · rw [hp, a]
+          · exact b
+          · simp [BodyReader.read, herr, hcur, hsk]
+    | none =>
+      have hp : pend r = bodyOf r.rest := by simp [pend, hcur]
+      have hs := seek_spec r.remain r.ending r.rest
+      cases hsk : seek r.remain r.ending r.rest with
+      | err e =>
+        rw [hsk] at hs
+        have hread : r.read k = ({ r with cur := none, err := some e }, [], e) := by
+          simp [BodyReader.read, herr, hcur, hsk]
+        cases e with
+        | ok => exact hs.elim
+        | eof => exact hs.elim
+        | errShort =>
+          rw [run_cons_end r _ k ks _ _ (by decide) hread]
+          simp only at hs
+          simp [hp, hs.1]; exact hs.2
+        | errLong =>
+          rw [run_cons_end r _ k ks _ _ (by decide) hread]
+          simp only at hs
+          simp [hp]; exact hs
+        | errReset =>
+          rw [run_cons_end r _ k ks _ _ (by decide) hread]
+          simp only at hs
+          simp [hp, hs.1, hs.2.1, hs.2.2]
+      | eof t =>
+        rw [hsk] at hs
+        simp only at hs
+        have hread : r.read k = ({ r with cur := none, err := some .eof, trailer := t, rest := [] }, [], .eof) := by
+          simp [BodyReader.read, herr, hcur, hsk]
+        rw [run_cons_end r _ k ks _ _ (by decide) hread]
+        obtain ⟨a, b, c, d⟩ := hs
+        simp [hp, a, c]
+        refine ⟨by omega, ?_⟩
+        rw [← c]; exact d
+      | data p fs =>
+        rw [hsk] at hs
+        simp only at hs
+        obtain ⟨a, b, c, d⟩ := hs
+        apply step { r with rest := fs } p herr rfl rfl d
+        · rw [hp, a]
+        · exact b
+        · simp [BodyReader.read, herr, hcur, hsk]
+
 end NetVerif.Proofs.C34
